@@ -4,6 +4,7 @@ import (
 	"fmt"
 	"go/types"
 	"sort"
+	"strings"
 
 	"golang.org/x/tools/go/ssa"
 )
@@ -294,8 +295,8 @@ func (e *Engine) callOutWrites(kind string, set map[string]bool) {
 		set["G|metric"] = true
 	}
 	if c := e.ifaceSpecs[kind]; c != nil {
-		for _, m := range c.Modifies {
-			set[m] = true
+		for _, m := range e.expandFrames(c.Modifies) {
+			set[strings.TrimPrefix(m, "new:")] = true
 		}
 	}
 }
@@ -312,7 +313,11 @@ func (e *Engine) calleeWrites(f *ssa.Function) []string {
 		return nil
 	}
 	if c := e.contracts[name]; c != nil && !c.Inline {
-		out := append([]string{allocName}, c.Modifies...)
+		out := []string{allocName}
+		for _, m := range e.expandFrames(c.Modifies) {
+			out = append(out, strings.TrimPrefix(m, "new:"))
+		}
+		out = append(out, "G|cnt|"+f.Name(), "G|arg|"+f.Name()+"|*", "G|res|"+f.Name()+"|*")
 		return out
 	}
 	if isPkgFunc(e.P, f) || f.Synthetic != "" {
